@@ -1425,11 +1425,28 @@ pub fn gen_input(rng: &mut Rng, st: &St, sheet: u32, row: i32, col: i32) -> Stri
         "multi\nline", "https://example.com", "www.ironcalc.com", "", "", "#N/A", "12:30", "1,000", "  padded ",
         "a\nb\nc",
     ];
+    // inputs that imply no format, link or quote prefix (used by the "plain" history profile)
+    const NO_FORMAT: &[&str] = &["1", "2", "3", "42", "2.5", "-3", "true", "FALSE", "hello", "world", "", "#N/A", "  padded ", "7"];
     if rng.chance(2, 5) {
         gen_formula(rng, st, sheet, row, col)
+    } else if plain_inputs() {
+        rng.pick(NO_FORMAT).to_string()
     } else {
         rng.pick(PLAIN).to_string()
     }
+}
+
+thread_local! {
+    static PLAIN_INPUTS: std::cell::Cell<bool> = const { std::cell::Cell::new(false) };
+}
+/// History profile: with `true`, typed inputs never imply a number format / link / quote prefix. The
+/// engine's most frequent undo defect (F01a: the implied format survives the undo) otherwise ends most
+/// histories at their first typed `10%`, and everything behind it stays unexplored.
+pub fn set_plain_inputs(v: bool) {
+    PLAIN_INPUTS.with(|c| c.set(v));
+}
+pub fn plain_inputs() -> bool {
+    PLAIN_INPUTS.with(|c| c.get())
 }
 
 pub fn gen_style_edit(rng: &mut Rng) -> (String, String) {
